@@ -1818,7 +1818,9 @@ export class AnyOfDiscriminatedRuntype extends BaseRuntype {
     const printingContext = this.getPrintingContext(ctx);
     const refTarget = this.getRefTarget(runtype);
     if (refTarget != null) {
-      this.ensureContextualDefinition(refTarget.name, refTarget.target, ctx);
+      // same body as BaseRefRuntype.schema stores, whichever of the two meets the name first
+      const schemaTarget = printingContext.getNamedTypeSchemaOverride(refTarget.name) ?? refTarget.target;
+      this.ensureContextualDefinition(refTarget.name, schemaTarget, ctx);
       return printingContext.getRef(refTarget.name);
     }
 
